@@ -147,6 +147,12 @@ def query_src(rng, cls):
 
 # dialect clauses with scalar parts next to their terms (run in both tiers): the rewrite keeps the scalars
 FIXED_QUERIES = [
+    # another VERSION of the table to replace (a temporal snapshot / period portion: same name, schema and alias) is another
+    # row source: replacing the plain table leaves it alone (S, P are built from the original table definition in both builds)
+    ("generic", "Query.from_(A).select(A.a).where(A.b.notin(Query.from_(S).select(S.b)))"),
+    ("mssql", "MSSQLQuery.from_(A).join(S).on(A.a == S.a).select(A.b, S.b)"),
+    ("generic", "Query.from_(A).select(A.a).where(ExistsCriterion(Query.from_(P).select(P.b).where(P.a == A.a)))"),
+    ("postgresql", "PostgreSQLQuery.from_(S).select(S.a).where(S.b.isin(PostgreSQLQuery.from_(A).select(A.b)))"),
     ("clickhouse", "ClickHouseQuery.from_(A).select(A.a, A.b).limit_offset_by(2, 3, A.a, C.b).join(C).on(A.a == C.a)"),
     ("clickhouse", "ClickHouseQuery.from_(A).select(A.a).limit_offset_by(4, 0, A.b)"),
     ("clickhouse", "ClickHouseQuery.from_(A).select(A.a).limit_by(2, A.a).limit(5).offset(1)"),
@@ -189,6 +195,9 @@ def generate(rng, n, tier):
 def build(case, which):
     B = "T('tb')" if ".as_(" not in case["A"] else "T('tb').as_('bx')"
     env = {"A": ns.ev(case["A"]), "C": ns.ev("T('tc')"), "E": ns.ev("T('td')"), "B": ns.ev(B)}
+    import pypika
+    env["S"] = env["A"].for_(pypika.SYSTEM_TIME.as_of("2020-01-01"))
+    env["P"] = env["A"].for_portion(pypika.SYSTEM_TIME.from_to("2020-01-01", "2021-01-01"))
     if which == "B":
         env["A"] = env["B"]
     return ns.ev(case["src"], env), env
@@ -229,7 +238,14 @@ def examine(case):
                              "what": "the original rendered %s before and %s after replace_table | %s" % (before, after, case["recipe"])})
     # the model's replace_table (Lean `replaceT`, policy Pol.code) applied to the described ORIGINAL object must render
     # what the real replace_table result renders
-    if rep is not None and not got.startswith("raises"):
+    import re
+    # the model's table references are (name, schema chain, alias): a field bound to a temporal VERSION of the table is not
+    # told apart from one bound to the table itself, so the model's replaceT is not asked about those statements (the
+    # comparison with the rebuilt statement above is what decides them)
+    versions = re.search(r"\b[SP]\b", case["src"]) is not None
+    if versions:
+        res.tags.append("temporal-version")
+    if rep is not None and not got.startswith("raises") and not versions:
         try:
             if isinstance(objA, ns.queries.QueryBuilder):
                 kw0 = {"dialect": objA.dialect}
